@@ -81,3 +81,855 @@ class Stream(Family):
                 out.append(('C01', 'round-trip-differs', diff))
                 out.append(('C04', 'round-trip-differs', diff))
         return out
+
+
+def resolve_calls(calls):
+    """case calls -> python-valued calls with defaults applied (for spec.py)."""
+    out = []
+    for c in calls:
+        n = c[0]
+        if n in ('new_change', 'new_file'):
+            out.append([n, sl.pyval(c[1])])
+        elif n == 'write_preamble':
+            ind = 4 if c[3] == 'omitted' else sl.pyval(c[3])
+            out.append([n, sl.pyval(c[1]), sl.pyval(c[2]), ind, sl.pyval(c[4]), sl.pyval(c[5])])
+        elif n == 'write_meta':
+            out.append([n, sl.pyval(c[1]), sl.pyval(c[2])])
+        else:
+            out.append([n, sl.pyval(c[1]), sl.pyval(c[2]), sl.pyval(c[3]), sl.pyval(c[4])])
+    return out
+
+
+def c02_oracle(c, data):
+    import spec
+    try:
+        want = spec.spec_serialize(c['main'], resolve_calls(c['calls']))
+    except Exception as e:  # the spec serializer cannot encode: not a valid C02 instance
+        return []
+    if want != data:
+        n = next((i for i in range(min(len(want), len(data))) if want[i] != data[i]), min(len(want), len(data)))
+        return [('C02', 'bytes-differ-from-spec',
+                 'writer output differs from the spec serializer at byte %d: got %r, spec %r'
+                 % (n, data[max(0, n - 20):n + 20], want[max(0, n - 20):n + 20]))]
+    return []
+
+
+_orig_stream_oracle = Stream.oracle
+
+
+def _stream_oracle(self, c, obs):
+    out = _orig_stream_oracle(self, c, obs)
+    wobs, data, robs, rt, orc, per = self._impl(c)
+    if c['kind'] == 'wellformed' and data is not None and all(p[0] for p in per):
+        out += c02_oracle(c, data)
+    return out
+
+
+Stream.oracle = _stream_oracle
+
+
+# ------------------------------------------------------------------ C09: call sequences and invalid-argument variants
+VALID = {
+    'new_change': ['new_change', None],
+    'new_file': ['new_file', None],
+    'write_preamble': ['write_preamble', sl.S('hi\n'), None, 'omitted', None, None],
+    'write_meta': ['write_meta', {'d': {'k': 1}}, None, 'omitted'],
+    'write_diff': ['write_diff', sl.Bv(b'-a\n+b\n'), None, None, None],
+}
+KINDS = list(VALID)
+
+# (call, must_reject): variants of each call with one invalid argument
+INVALID = [
+    (['new_change', sl.S('\xe9')], True),                      # header cannot be encoded as ASCII
+    (['new_file', sl.S('\xe9')], True),
+    (['new_change', sl.S('nope')], False),                     # unknown codec: the writer does not validate it here
+    (['new_file', sl.S('nope')], False),
+    (['write_preamble', sl.Bv(b'bytes'), None, 'omitted', None, None], True),
+    (['write_preamble', sl.S(''), None, 'omitted', None, None], True),
+    (['write_preamble', None, None, 'omitted', None, None], True),
+    (['write_preamble', sl.S('x'), None, 'omitted', sl.S('mac'), None], True),
+    (['write_preamble', sl.S('x'), None, 'omitted', None, sl.S('text/html')], True),
+    (['write_preamble', sl.S('x'), sl.S('nope'), 'omitted', None, None], True),
+    (['write_preamble', sl.S('x'), sl.S('\xe9'), 'omitted', None, None], True),
+    (['write_preamble', sl.S('\ud800'), None, 'omitted', None, None], True),
+    (['write_preamble', sl.S('\xe9'), sl.S('ascii'), 'omitted', None, None], True),
+    (['write_preamble', sl.S('x'), None, sl.S('x'), None, None], True),
+    (['write_preamble', sl.S('x'), None, 'other', None, None], True),
+    (['write_meta', 'other', None, 'omitted'], True),
+    (['write_meta', None, None, 'omitted'], True),
+    (['write_meta', {'d': {}}, None, 'omitted'], True),
+    (['write_meta', {'d': {'k': 1}}, None, sl.S('yaml')], True),
+    (['write_meta', {'d': {'k': 1}}, sl.S('nope'), 'omitted'], True),
+    (['write_meta', {'d': {'k': {'__bad__': 1}}}, None, 'omitted'], True),
+    (['write_diff', sl.S('text'), None, None, None], True),
+    (['write_diff', sl.Bv(b''), None, None, None], True),
+    (['write_diff', sl.Bv(b'x\n'), sl.S('weird'), None, None], True),
+    (['write_diff', sl.Bv(b'x\n'), None, None, sl.S('mac')], True),
+    (['write_diff', sl.Bv(b'x\n'), None, sl.S('nope'), None], True),
+]
+
+
+class Calls(Family):
+    name = 'calls'
+    rule = ('every sequence over {new_change,new_file,write_preamble,write_meta,write_diff} with valid arguments up to '
+            'a bounded length (exhaustive), plus every way of replacing one call of every shorter sequence by one of 26 '
+            'invalid-argument variants followed by every valid continuation of length <= 2, plus random longer '
+            'sequences; non-trivial = at least one accepted and one rejected call; distinct by the call list')
+
+    def cases(self, tier, rng, prop_id):
+        import itertools
+        maxlen = 4 if tier == 'quick' else 6
+        for n in range(0, maxlen + 1):
+            for seq in itertools.product(KINDS, repeat=n):
+                yield dict(kind='exh%d' % n, main='utf-8', calls=[VALID[k] for k in seq], must=[])
+        vlen = 2 if tier == 'quick' else 3
+        for n in range(0, vlen + 1):
+            for seq in itertools.product(KINDS, repeat=n):
+                for pos in range(n + 1):
+                    for (bad, must) in INVALID:
+                        for m in range(0, 3):
+                            for cont in itertools.product(KINDS, repeat=m):
+                                if tier == 'quick' and m == 2 and rng.random() < 0.8:
+                                    continue
+                                calls = [VALID[k] for k in seq[:pos]] + [bad] + [VALID[k] for k in seq[pos:]] + \
+                                        [VALID[k] for k in cont]
+                                yield dict(kind='invalid', main='utf-8', calls=calls, must=[pos] if must else [])
+        for i in range(300 if tier == 'quick' else 5000):
+            n = rng.randint(5, 14)
+            calls = []
+            must = []
+            for j in range(n):
+                if rng.random() < 0.15:
+                    bad, m = rng.choice(INVALID)
+                    if m:
+                        must.append(j)
+                    calls.append(bad)
+                else:
+                    # bias towards a plausible order so that long accepted prefixes occur
+                    calls.append(VALID[rng.choice(KINDS + ['new_file', 'write_meta', 'write_diff'])])
+            yield dict(kind='random', main=rng.choice(['utf-8', 'utf-16', 'latin-1']), calls=calls, must=must)
+
+    def _impl(self, c):
+        if '_impl' not in c:
+            c['_impl'] = sl.run_writer(sl.S(c['main']), sl.S('1.0'), c['calls'])
+        return c['_impl']
+
+    def model_line(self, c):
+        return sl.write_model_line(sl.S(c['main']), sl.S('1.0'), c['calls'])
+
+    def impl_obs(self, c):
+        return self._impl(c)[0]
+
+    def normalize_model(self, line):
+        return sl.collapse_exc(line)
+
+    def nontrivial(self, c):
+        per = self._impl(c)[2]
+        return any(p[0] for p in per) and any(not p[0] for p in per)
+
+    def bucket(self, c):
+        return c['kind']
+
+    def oracle(self, c, obs):
+        """C09 on the implementation: accept iff may_follow (valid arguments); rejected calls are atomic
+        (stream unchanged, and the rest of the run is as if the call had not been made); append-only."""
+        import io
+        import spec
+        from pydiffx.writer import DiffXWriter
+        out = []
+        stream = io.BytesIO()
+        w = DiffXWriter(stream, encoding=c['main'])
+        prev = 'diffx'
+        level = 0
+        before = stream.getvalue()
+        accepted_idx = []
+        tainted = False
+        for i, call in enumerate(c['calls']):
+            valid_args = call in VALID.values()
+            target = spec.target_section(level, call[0])
+            try:
+                sl.apply_call(w, call)
+                ok = True
+            except Exception:
+                ok = False
+            after = stream.getvalue()
+            if not after.startswith(before):
+                out.append(('C09', 'not-append-only', 'call %d changed bytes already written' % i))
+            if not ok and after != before:
+                out.append(('C09', 'rejected-call-wrote', 'call %d raised after writing %r' % (i, after[len(before):][:60])))
+            if ok and call[0] in ('new_change', 'new_file') and call[1] == sl.S('nope'):
+                tainted = True      # an unknown codec is now inherited: later content calls cannot be encoded
+            if valid_args and ok != spec.may_follow(prev, target) and not (tainted and not ok):
+                out.append(('C09', 'order', 'call %d (%s after %s): accepted=%s but may_follow=%s'
+                            % (i, target, prev, ok, spec.may_follow(prev, target))))
+            if i in c.get('must', []) and ok:
+                out.append(('C09', 'invalid-argument-accepted', 'call %d with an invalid argument was accepted' % i))
+            if ok:
+                accepted_idx.append(i)
+                prev = target
+                if call[0] == 'new_change':
+                    level = 1
+                elif call[0] == 'new_file':
+                    level = 2
+            before = after
+            if out:
+                return out
+        # continuing "exactly as if the call had not been made": replay only the accepted calls on a fresh writer
+        if len(accepted_idx) != len(c['calls']):
+            s2 = io.BytesIO()
+            w2 = DiffXWriter(s2, encoding=c['main'])
+            try:
+                for i in accepted_idx:
+                    sl.apply_call(w2, c['calls'][i])
+                if s2.getvalue() != before:
+                    out.append(('C09', 'rejected-call-changed-state',
+                                'output differs from the run without the rejected calls'))
+            except Exception as e:
+                out.append(('C09', 'rejected-call-changed-state',
+                            'the accepted calls alone are not accepted by a fresh writer: %s' % type(e).__name__))
+        return out
+
+
+# ------------------------------------------------------------------ foreign files (C03, C12)
+import gen_foreign as gf
+
+
+def compare_foreign(exp, records, upto=None):
+    """First difference between the specification's reading and the reader's records (None if equal)."""
+    exp = exp if upto is None else exp[:upto]
+    if len(records) != len(exp):
+        return 'expected %d records, got %d' % (len(exp), len(records))
+    for i, (e, r) in enumerate(zip(exp, records)):
+        if (e['section'], e['level'], e['line']) != (r['section'], r['level'], r['line']):
+            return 'record %d: (id, level, line) = %r, spec says %r' % (
+                i, (r['section'], r['level'], r['line']), (e['section'], e['level'], e['line']))
+        if r['options'] != e['options'] or any(type(r['options'][k]) is not type(e['options'][k]) for k in e['options']):
+            return 'record %d: options %r, spec says %r' % (i, r['options'], e['options'])
+        for k in ('text', 'metadata', 'diff'):
+            if k in e:
+                if k not in r or type(r[k]) is not type(e[k]) or r[k] != e[k]:
+                    return 'record %d: %s = %r, spec says %r' % (i, k, r.get(k), e[k])
+                if k == 'metadata' and not gc.json_equal(r[k], e[k]):
+                    return 'record %d: metadata differs as JSON' % i
+    return None
+
+
+class Foreign(Family):
+    name = 'foreign'
+    rule = ('well-formed files from an independent spec-derived generator (options shuffled, optional options absent, '
+            'blank/whitespace lines, CRLF headers, compact/pretty JSON, BOM or BOM-free text, undeclared line endings), '
+            'their single-defect mutations from the C03 catalogue, and copies with 1-4 unknown options inserted; '
+            'non-trivial = at least 4 sections; distinct by file bytes')
+
+    def cases(self, tier, rng, prop_id):
+        n = 250 if tier == 'quick' else 5000
+        for i in range(n):
+            f = gf.gen_file(rng)
+            yield dict(kind='wellformed', file=f)
+            if prop_id in ('C03', '?'):
+                cands = [(k, d) for k in range(len(f['sections'])) for d in gf.DEFECTS if gf.applicable(f, k, d)]
+                picks = cands if tier != 'quick' else [rng.choice(cands) for _ in range(3)]
+                for (k, d) in picks:
+                    yield dict(kind='defect', file=gf.inject(f, k, d, rng), base=f, at=k, defect=d)
+            if prop_id in ('C12', '?'):
+                for _ in range(2):
+                    g, added = gf.add_unknown_options(f, rng)
+                    yield dict(kind='unknown-options', file=g, base=f, added={str(k): v for k, v in added.items()})
+
+    def _impl(self, c):
+        if '_impl' not in c:
+            data = gf.render(c['file'])
+            c['_impl'] = (data,) + sl.run_reader(data)
+        return c['_impl']
+
+    def model_line(self, c):
+        data, robs, records, term, orc = self._impl(c)
+        return sl.read_model_line(data, orc)
+
+    def impl_obs(self, c):
+        return self._impl(c)[1]
+
+    def normalize_model(self, line):
+        return sl.collapse_exc(line)
+
+    def key(self, c):
+        return gf.render(c['file']).hex()
+
+    def bucket(self, c):
+        return c['kind'] + ('/' + c['defect'] if 'defect' in c else '')
+
+    def nontrivial(self, c):
+        return len(c['file']['sections']) >= 4
+
+    def describe(self, c):
+        d = {k: v for k, v in c.items() if not k.startswith('_')}
+        d['data_hex'] = gf.render(c['file']).hex()
+        return d
+
+    def oracle(self, c, obs):
+        data, robs, records, term, orc = self._impl(c)
+        out = []
+        if c['kind'] == 'wellformed':
+            exp = gf.expected(c['file'])
+            if term[0] != 'end':
+                out.append(('C03', 'wellformed-rejected', 'a well-formed file ended with %r' % (term,)))
+            else:
+                d = compare_foreign(exp, records)
+                if d:
+                    out.append(('C03', 'reading-differs-from-spec', d))
+        elif c['kind'] == 'defect':
+            exp = gf.expected(c['base'])
+            k = c['at']
+            if term[0] != 'parse':
+                out.append(('C03', 'defect-not-rejected', 'defect %s at section %d: reader ended with %r'
+                            % (c['defect'], k, term[:2])))
+            else:
+                d = compare_foreign(exp, records, upto=k)
+                if d:
+                    out.append(('C03', 'defect-prefix-differs', d))
+                lo = exp[k]['line']
+                # the offending section's lines in the mutated file
+                mexp = gf.expected(c['file'])
+                hi = mexp[k]['line'] + mexp[k]['nlines']
+                if not (lo <= term[1] <= hi):
+                    out.append(('C03', 'defect-line', 'defect %s at section %d (lines %d..%d) reported on line %r'
+                                % (c['defect'], k, lo, hi, term[1])))
+        elif c['kind'] == 'unknown-options':
+            exp = gf.expected(c['base'])
+            for k, extra in c['added'].items():
+                exp[int(k)]['options'] = dict(exp[int(k)]['options'], **extra)
+            if term[0] != 'end':
+                out.append(('C12', 'unknown-option-rejected', 'file with unknown options %r ended with %r'
+                            % (c['added'], term[:4])))
+            else:
+                d = compare_foreign(exp, records)
+                if d:
+                    out.append(('C12', 'unknown-option-changed-output', d))
+        return out
+
+
+# ------------------------------------------------------------------ truncation and bad lengths (C07)
+def small_file(rng, limit):
+    for _ in range(50):
+        f = gf.gen_file(rng)
+        if len(gf.render(f)) <= limit:
+            return f
+    return f
+
+
+def classify_c07(intact, got, exhausted):
+    """None if got is a prefix of intact; else (signature, what)."""
+    for i, g in enumerate(got):
+        if i < len(intact) and sl.record_sx(intact[i]) == sl.record_sx(g):
+            continue
+        last = i == len(got) - 1
+        if last and i < len(intact) and g['section'] == intact[i]['section'] and exhausted:
+            a, b = intact[i], g
+            oa = {k: v for k, v in a['options'].items() if k != 'length'}
+            ob = {k: v for k, v in b['options'].items() if k != 'length'}
+            same_opts = oa == ob
+            for key in ('text', 'diff'):
+                if key in a and key in b and type(a[key]) is type(b[key]) and same_opts and \
+                        a[key].startswith(b[key]) and len(b[key]) < len(a[key]):
+                    return ('short-read-accepted',
+                            'record %d (%s) was yielded with content cut short (%d of %d units) because the stream '
+                            'ended inside it' % (i, g['section'], len(b[key]), len(a[key])))
+            if 'metadata' in a and 'metadata' in b and same_opts:
+                return ('short-read-accepted', 'record %d (%s): metadata read from a short read' % (i, g['section']))
+        return ('truncation-altered-record', 'record %d differs from the intact file: %s vs %s'
+                % (i, sl.record_sx(g)[:200], sl.record_sx(intact[i])[:200] if i < len(intact) else 'nothing'))
+    return None
+
+
+class Truncate(Family):
+    name = 'truncate'
+    rule = ('well-formed files x every truncation point 0..len, and every content section length perturbed by '
+            '+-1..3, 0, -1, abc, 1_0, 2^70; non-trivial = the cut falls strictly inside the file / the perturbed '
+            'length differs from the true one; distinct by resulting bytes')
+
+    def cases(self, tier, rng, prop_id):
+        nfiles = 12 if tier == 'quick' else 150
+        limit = 500 if tier == 'quick' else 2500
+        for i in range(nfiles):
+            f = small_file(rng, limit)
+            data = gf.render(f)
+            for k in range(len(data) + 1):
+                yield dict(kind='cut', file=f, cut=k)
+            for si, s in enumerate(f['sections']):
+                if s['content'] is None:
+                    continue
+                true = len(bytes.fromhex(s['content']))
+                for v in [str(true + d) for d in (-3, -2, -1, 1, 2, 3)] + ['0', '-1', 'abc', '1_0', str(2 ** 70),
+                                                                          str(true + 10 ** 6)]:
+                    yield dict(kind='length', file=f, at=si, value=v)
+
+    def _data(self, c):
+        if c['kind'] == 'cut':
+            return gf.render(c['file'])[:c['cut']]
+        g = json.loads(json.dumps(c['file']))
+        for o in g['sections'][c['at']]['opts']:
+            if o[0] == 'length':
+                o[1] = c['value']
+        return gf.render(g)
+
+    def _impl(self, c):
+        if '_impl' not in c:
+            data = self._data(c)
+            c['_impl'] = (data,) + sl.run_reader(data)
+        return c['_impl']
+
+    def model_line(self, c):
+        data, robs, records, term, orc = self._impl(c)
+        return sl.read_model_line(data, orc)
+
+    def impl_obs(self, c):
+        return self._impl(c)[1]
+
+    def normalize_model(self, line):
+        return sl.collapse_exc(line)
+
+    def key(self, c):
+        return self._data(c).hex()
+
+    def bucket(self, c):
+        return c['kind']
+
+    def nontrivial(self, c):
+        if c['kind'] == 'cut':
+            return 0 < c['cut'] < len(gf.render(c['file']))
+        return True
+
+    def describe(self, c):
+        d = {k: v for k, v in c.items() if not k.startswith('_')}
+        d['data_hex'] = self._data(c).hex()
+        return d
+
+    _intact_cache = {}
+
+    def _intact(self, f):
+        key = id(f)
+        if key not in self._intact_cache:
+            data = gf.render(f)
+            self._intact_cache[key] = (f, sl.run_reader(data)[1])
+        return self._intact_cache[key][1]
+
+    def oracle(self, c, obs):
+        data, robs, records, term, orc = self._impl(c)
+        out = []
+        if term[0] == 'exc':
+            out.append(('C07', 'other-exception', 'reader raised %s' % term[1]))
+            return out
+        intact = self._intact(c['file'])
+        if c['kind'] == 'cut':
+            r = classify_c07(intact, records, exhausted=True)
+            if r:
+                out.append(('C07', r[0], 'file cut at byte %d of %d: %s' % (c['cut'], len(gf.render(c['file'])), r[1])))
+        else:
+            # which section of the intact record list is perturbed
+            si = c['at']
+            v = c['value']
+            true = len(bytes.fromhex(c['file']['sections'][si]['content']))
+            after = sum(len(bytes.fromhex(s['content'])) if s['content'] else 0 for s in c['file']['sections'][si:]) + 10 ** 5
+            try:
+                n = int(v) if __import__('re').fullmatch(r'-?[0-9]+', v) else None
+            except ValueError:
+                n = None
+            constrained = n is None or n < 0 or n > self._bytes_after_header(c['file'], si)
+            if constrained:
+                # records before the perturbed section unchanged; the perturbed one must not be yielded altered
+                if [sl.record_sx(x) for x in records[:si]] != [sl.record_sx(x) for x in intact[:len(records[:si])]]:
+                    out.append(('C07', 'bad-length-altered-earlier-record', 'length=%s at section %d' % (v, si)))
+                elif len(records) > si:
+                    a, b = intact[si], records[si]
+                    same = all(a.get(k) == b.get(k) for k in ('text', 'metadata', 'diff'))
+                    if not same:
+                        exceeds = n is not None and n > 0
+                        out.append(('C07', 'short-read-accepted' if exceeds else 'bad-length-accepted',
+                                    'length=%s (true %d) at section %d (%s): the section was yielded with different '
+                                    'content' % (v, true, si, b['section'])))
+        return out
+
+    def _bytes_after_header(self, f, si):
+        n = 0
+        for j, s in enumerate(f['sections']):
+            if j < si:
+                continue
+            if j > si:
+                n += sum(len(bytes.fromhex(b)) for b in s['blank'])
+                n += len(gf.render_header(s['id'], s['opts'], f['crlf']))
+            if s['content']:
+                n += len(bytes.fromhex(s['content']))
+        n += sum(len(bytes.fromhex(b)) for b in f.get('trailing', []))
+        return n
+
+
+# ------------------------------------------------------------------ section order (C10)
+NAMES6 = ['diffx', 'preamble', 'meta', 'change', 'file', 'diff']
+IDS24 = ['.' * lvl + n for lvl in range(4) for n in NAMES6]
+
+
+def render_id(sid):
+    """A header (with the minimal valid options and content for its kind) for any of the 24 syntactic ids."""
+    name = sid.lstrip('.')
+    if name == 'diffx':
+        return ('#%s: encoding=utf-8, version=1.0\n' % sid).encode()
+    if name == 'preamble':
+        return ('#%s: length=2\nx\n' % sid).encode()
+    if name == 'meta':
+        return ('#%s: format=json, length=9\n{"a": 1}\n' % sid).encode()
+    if name == 'diff':
+        return ('#%s: length=2\nx\n' % sid).encode()
+    return ('#%s:\n' % sid).encode()
+
+
+class Order(Family):
+    name = 'order'
+    rule = ('every sequence over the 24 syntactic section ids (9 legal + 15 well-formed but illegal level/name '
+            'combinations) up to a bounded length, each rendered with minimal valid options/content; plus headers the '
+            'grammar rejects; non-trivial = length >= 2; distinct by id sequence')
+
+    def cases(self, tier, rng, prop_id):
+        import itertools
+        maxlen = 3 if tier == 'quick' else 4
+        for n in range(1, maxlen + 1):
+            if n <= 3:
+                for seq in itertools.product(IDS24, repeat=n):
+                    yield dict(kind='exh%d' % n, ids=list(seq))
+            else:
+                # length 4: all sequences whose first three ids are accepted (the others are decided by a prefix)
+                import spec
+                for seq in itertools.product(spec.NINE, repeat=3):
+                    if seq[0] == 'diffx' and spec.may_follow(seq[0], seq[1]) and spec.may_follow(seq[1], seq[2]):
+                        for last in IDS24:
+                            yield dict(kind='exh4', ids=list(seq) + [last])
+        import spec
+        for i in range(200 if tier == 'quick' else 5000):
+            # random long legal walks with one random id at the end
+            seq = ['diffx']
+            for _ in range(rng.randint(3, 12)):
+                seq.append(rng.choice(spec.MAY_FOLLOW[seq[-1]]))
+            seq.append(rng.choice(IDS24))
+            yield dict(kind='walk', ids=seq)
+        for h in ['#....meta: length=2\nx\n', '#.Change:\n', '#.change\n', '.change:\n', '#.changes:\n', '# .change:\n']:
+            yield dict(kind='bad-header', ids=['diffx'], extra=h)
+
+    def _data(self, c):
+        return b''.join(render_id(s) for s in c['ids']) + c.get('extra', '').encode()
+
+    def _impl(self, c):
+        if '_impl' not in c:
+            data = self._data(c)
+            c['_impl'] = (data,) + sl.run_reader(data)
+        return c['_impl']
+
+    def model_line(self, c):
+        data, robs, records, term, orc = self._impl(c)
+        return sl.read_model_line(data, orc)
+
+    def impl_obs(self, c):
+        return self._impl(c)[1]
+
+    def normalize_model(self, line):
+        return sl.collapse_exc(line)
+
+    def nontrivial(self, c):
+        return len(c['ids']) >= 2
+
+    def bucket(self, c):
+        return c['kind']
+
+    def oracle(self, c, obs):
+        import spec
+        data, robs, records, term, orc = self._impl(c)
+        ids = c['ids']
+        # spec: first index that may not follow its predecessor (index 0 must be diffx)
+        rej = None
+        for i, s in enumerate(ids):
+            ok = (s == 'diffx') if i == 0 else spec.may_follow(ids[i - 1], s)
+            if not ok:
+                rej = i
+                break
+        if 'extra' in c and rej is None:
+            rej = len(ids)
+        got = len(records)
+        out = []
+        if term[0] == 'exc':
+            return [('C10', 'other-exception', 'reader raised %s' % term[1])]
+        if rej is None:
+            if term[0] != 'end' or got != len(ids):
+                out.append(('C10', 'legal-order-rejected', 'legal sequence %r: %d records then %r' % (ids, got, term[:2])))
+        else:
+            if term[0] != 'parse' or got != rej:
+                out.append(('C10', 'first-rejected-index', 'sequence %r: spec rejects index %d, reader yielded %d '
+                            'records then %r' % (ids, rej, got, term[:2])))
+        for r in records:
+            if r['section'] not in spec.NINE:
+                out.append(('C10', 'illegal-id-accepted', 'accepted id %r' % r['section']))
+        return out
+
+
+# ------------------------------------------------------------------ header grammar (C11)
+import re as _re
+SPEC_HEADER_RE = _re.compile(
+    rb'#(\.{0,3})(diffx|preamble|meta|change|file|diff):'
+    rb'(?: ([A-Za-z][A-Za-z0-9_-]*=[A-Za-z0-9/._-]+(?:, [A-Za-z][A-Za-z0-9_-]*=[A-Za-z0-9/._-]+)*))?')
+SPEC_INT_RE = _re.compile(rb'-?[0-9]+')
+ALPHABET16 = [b'a', b'Z', b'0', b'_', b'-', b'.', b'/', b'=', b',', b' ', b'\t', b'#', b':', b'+', b'\xc3', b'9']
+
+
+def spec_parse_header(line):
+    """The property's grammar: None if the line is not a header, else (id, options dict with ints converted)."""
+    m = SPEC_HEADER_RE.fullmatch(line)
+    if not m:
+        return None
+    opts = {}
+    if m.group(3):
+        for pair in m.group(3).split(b', '):
+            k, v = pair.split(b'=', 1)
+            if SPEC_INT_RE.fullmatch(v) and len(v.lstrip(b'-')) <= 4300:
+                opts[k.decode()] = int(v)
+            else:
+                opts[k.decode()] = v.decode()
+    return (m.group(1) + m.group(2)).decode(), opts
+
+
+class HeaderFam(Family):
+    name = 'header'
+    rule = ('header lines "#.change: <s>" and "#.change: k=v, <s>" for every option string s over a 16-symbol alphabet '
+            '(letters, digits, each punctuation character of the grammar, space, tab, #, :, +, a non-ASCII byte) up to '
+            'a bounded length (exhaustive), structural variants of the "#..name:" part, random longer strings; each '
+            'placed after a valid main header; non-trivial = the string contains "="; distinct by line')
+
+    PREFIX = b'#diffx: version=1.0\n'
+
+    def cases(self, tier, rng, prop_id):
+        import itertools
+        maxlen = 3 if tier == 'quick' else 4
+        for n in range(0, maxlen + 1):
+            for tup in itertools.product(ALPHABET16, repeat=n):
+                s = b''.join(tup)
+                yield dict(kind='exh%d' % n, line=hx(b'#.change: ' + s))
+                if n <= (2 if tier == 'quick' else 3):
+                    yield dict(kind='cont%d' % n, line=hx(b'#.change: k=v, ' + s))
+                    yield dict(kind='kv%d' % n, line=hx(b'#.change: a' + s + b'=b' + s))
+        for dots in range(0, 5):
+            for name in [b'diffx', b'preamble', b'meta', b'change', b'file', b'diff', b'Change', b'changes', b'', b'chang']:
+                for tail in [b':', b'', b'::', b': ', b':  a=b', b': a=b', b':a=b', b':\t', b': a=b ', b' :', b': a=b,c=d',
+                             b': a=b, c=d', b': a=b,  c=d', b': a=b , c=d', b': a = b', b': =b', b': a=', b': a==b']:
+                    yield dict(kind='structure', line=hx(b'#' + b'.' * dots + name + tail))
+        for pre in [b' #.change:', b'.change:', b'##.change:', b'#.change:\r', b'#\xc3.change:', b'#.change: a=b\x00']:
+            yield dict(kind='structure', line=hx(pre))
+        keych = b'aZ09_-'
+        valch = b'aZ09_-./'
+        junk = b' \t,=#:+\xc3\x00\x7f'
+        for i in range(800 if tier == 'quick' else 20000):
+            pairs = []
+            for _ in range(rng.randint(1, 4)):
+                k = bytes(rng.choice(keych) for _ in range(rng.randint(1, 4)))
+                v = bytes(rng.choice(valch) for _ in range(rng.randint(1, 5)))
+                if rng.random() < 0.3:
+                    v = rng.choice([b'0', b'-1', b'007', b'12', b'-', b'1-2', b'1_0', b'9' * 20, b'--1', b'1.0'])
+                p = k + b'=' + v
+                if rng.random() < 0.15:
+                    j = rng.randrange(len(p) + 1)
+                    p = p[:j] + bytes([rng.choice(junk)]) + p[j:]
+                pairs.append(p)
+            sep = b', ' if rng.random() < 0.9 else rng.choice([b',', b',  ', b' ,', b' '])
+            yield dict(kind='random', line=hx(b'#.change: ' + sep.join(pairs)))
+        for n in (4299, 4300, 4301):
+            for pre in (b'', b'-', b'000'):
+                yield dict(kind='bigint', line=hx(b'#.change: a=' + pre + b'9' * n))
+
+    def _impl(self, c):
+        if '_impl' not in c:
+            data = self.PREFIX + unhx(c['line']) + b'\n'
+            c['_impl'] = (data,) + sl.run_reader(data)
+        return c['_impl']
+
+    def model_line(self, c):
+        data, robs, records, term, orc = self._impl(c)
+        return sl.read_model_line(data, orc)
+
+    def impl_obs(self, c):
+        return self._impl(c)[1]
+
+    def normalize_model(self, line):
+        return sl.collapse_exc(line)
+
+    def nontrivial(self, c):
+        return b'=' in unhx(c['line'])
+
+    def bucket(self, c):
+        return c['kind']
+
+    def oracle(self, c, obs):
+        data, robs, records, term, orc = self._impl(c)
+        line = unhx(c['line'])
+        if b'\n' in line:
+            return []
+        if term[0] == 'exc':
+            return [('C11', 'other-exception', 'header %r raised %s' % (line, term[1]))]
+        want = spec_parse_header(line)
+        accepted = len(records) == 2 and term[0] == 'end'
+        if want is not None and want[0] == '.change':
+            if not accepted:
+                return [('C11', 'valid-header-rejected', 'header %r matches the grammar and was rejected: %r'
+                         % (line, term[:4]))]
+            got = records[1]['options']
+            if got != want[1] or any(type(got[k]) is not type(want[1][k]) for k in got):
+                return [('C11', 'options-not-verbatim', 'header %r: options %r, grammar says %r' % (line, got, want[1]))]
+        else:
+            if accepted or term[0] != 'parse' or len(records) != 1:
+                return [('C11', 'invalid-header-accepted', 'line %r does not match the grammar (or is not ".change") '
+                         'and gave %d records then %r' % (line, len(records), term[:2]))]
+        return []
+
+
+# ------------------------------------------------------------------ chunking (C17)
+class Chunk(Family):
+    name = 'chunk'
+    rule = ('well-formed files whose first header is padded by p extra option bytes (p = 0..2*96, shifting every later '
+            'header through every alignment) x read-ahead block sizes 1..2*96 and larger than the file: a seeded sample '
+            'of the grid plus the diagonal in quick, the full grid in thorough; non-trivial = block size != 96; '
+            'distinct by (file, padding, block)')
+
+    def cases(self, tier, rng, prop_id):
+        nfiles = 2 if tier == 'quick' else 3
+        files = []
+        for i in range(nfiles):
+            main, calls = gc.gen_wellformed_calls(rng, max_changes=2, max_files=2)
+            wobs, data, per = sl.run_writer(sl.S(main), sl.S('1.0'), calls)
+            files.append(data)
+        long_line = b'#diffx: version=1.0\n#.preamble: length=%d\n' % 401 + b'y' * 400 + b'\n#.change:\n#..file:\n#...meta: length=3\n{}\n'
+        files.append(long_line)
+        grid = []
+        if tier == 'quick':
+            for fi in range(len(files)):
+                for d in range(0, 193, 3):
+                    grid.append((fi, d, max(1, d)))
+                for _ in range(150):
+                    grid.append((fi, rng.randint(0, 192), rng.randint(1, 192)))
+                for b in (1, 2, 95, 96, 97, 192, 100000):
+                    grid.append((fi, rng.randint(0, 192), b))
+        else:
+            for fi in range(len(files)):
+                for p in range(0, 193):
+                    for b in list(range(1, 193)) + [100000]:
+                        if fi == 0 or (p + b) % 7 == 0 or b in (1, 96, 100000):
+                            grid.append((fi, p, b))
+        for (fi, p, b) in grid:
+            yield dict(kind='grid', data=hx(files[fi]), pad=p, block=b)
+
+    def _data(self, c):
+        data = unhx(c['data'])
+        i = data.index(b'\n')
+        p = c['pad']
+        if p == 0:
+            return data
+        if p < 5:
+            return data        # too short to form ", x=a"
+        return data[:i] + b', x=' + b'a' * (p - 4) + data[i:]
+
+    def _impl(self, c):
+        if '_impl' not in c:
+            data = self._data(c)
+            c['_impl'] = (data,) + sl.run_reader(data, chunk=c['block'])
+        return c['_impl']
+
+    def model_line(self, c):
+        data, robs, records, term, orc = self._impl(c)
+        return sl.read_model_line(data, orc, chunk=c['block'])
+
+    def impl_obs(self, c):
+        return self._impl(c)[1]
+
+    def normalize_model(self, line):
+        return sl.collapse_exc(line)
+
+    def nontrivial(self, c):
+        return c['block'] != 96
+
+    def bucket(self, c):
+        return 'block<96' if c['block'] < 96 else ('block=96' if c['block'] == 96 else 'block>96')
+
+    _ref = {}
+
+    def oracle(self, c, obs):
+        data, robs, records, term, orc = self._impl(c)
+        key = c['data']
+        if key not in self._ref:
+            self._ref[key] = sl.run_reader(unhx(c['data']))
+        ref_obs, ref_records, ref_term, _ = self._ref[key]
+        if term != ref_term:
+            return [('C17', 'chunking-changed-termination', 'pad=%d block=%d: %r vs %r' % (c['pad'], c['block'], term[:3], ref_term[:3]))]
+        a = [dict(r, options={k: v for k, v in r['options'].items() if k != 'x'}) for r in records]
+        if [sl.record_sx(x) for x in a] != [sl.record_sx(x) for x in ref_records]:
+            return [('C17', 'chunking-changed-records', 'pad=%d block=%d: records differ from the unpadded, default-block reading' % (c['pad'], c['block']))]
+        return []
+
+
+# ------------------------------------------------------------------ nesting histories (C04)
+MARK = ['utf-16-le', 'utf-32-be', 'latin-1']
+
+
+class Nesting(Family):
+    name = 'nesting'
+    rule = ('every container history main -> (change|file)* up to a bounded number of transitions that the hierarchy '
+            'allows, each container declaring no encoding or one of 3 marker codecs, each followed by a text section '
+            '(with and without its own encoding) whose text encodes differently under every codec involved; '
+            'non-trivial = at least one file -> change or sibling transition after a declaration; distinct by history')
+
+    def cases(self, tier, rng, prop_id):
+        import itertools
+        maxt = 3 if tier == 'quick' else 4
+        decls = [None] + MARK[:2] if tier == 'quick' else [None] + MARK
+        text = 'é€\n' if False else '\xe9\xff\n'
+
+        def histories(n):
+            # sequences of 'c' / 'f' where the first is 'c'
+            for seq in itertools.product('cf', repeat=n):
+                if seq and seq[0] == 'c':
+                    yield seq
+        for n in range(1, maxt + 1):
+            for seq in histories(n):
+                for ds in itertools.product(decls, repeat=n):
+                    for own in ([None] if tier == 'quick' and n == maxt else [None, 'utf-32-le']):
+                        calls = []
+                        for kind, d in zip(seq, ds):
+                            if kind == 'c':
+                                # a change needs at least one file before the next change: add a minimal file if the
+                                # previous container was a change
+                                if calls and calls[-1][0] in ('new_change', 'write_preamble') and self._last_container(calls) == 'c':
+                                    calls.append(['new_file', None])
+                                    calls.append(['write_meta', {'d': {'t': text}}, None, 'omitted'])
+                                calls.append(['new_change', sl.S(d) if d else None])
+                                calls.append(['write_preamble', sl.S(text), sl.S(own) if own else None, 'omitted', None, None])
+                            else:
+                                calls.append(['new_file', sl.S(d) if d else None])
+                                calls.append(['write_meta', {'d': {'t': text}}, sl.S(own) if own else None, 'omitted'])
+                        if self._last_container(calls) == 'c':
+                            calls.append(['new_file', None])
+                            calls.append(['write_meta', {'d': {'t': text}}, None, 'omitted'])
+                        yield dict(kind='wellformed', main='utf-8', calls=calls, hist=''.join(seq))
+
+    @staticmethod
+    def _last_container(calls):
+        for c in reversed(calls):
+            if c[0] == 'new_change':
+                return 'c'
+            if c[0] == 'new_file':
+                return 'f'
+        return None
+
+    # same implementation/observation/oracle as the stream family
+    _impl = Stream._impl
+    model_line = Stream.model_line
+    impl_obs = Stream.impl_obs
+    normalize_model = Stream.normalize_model
+    oracle = Stream.oracle
+
+    def nontrivial(self, c):
+        return 'fc' in c['hist'] or 'cc' in c['hist'] or 'ff' in c['hist']
+
+    def bucket(self, c):
+        return 'len%d' % len(c['hist'])
